@@ -687,6 +687,27 @@ pub fn run_c05(out: &mut Out, rng: &mut Rng, thorough: bool, only: Option<&str>)
                 emit_parse_sweep(out, v, mode, &base, pos);
             }
         }
+        // (b0) the same sweep over UNIFORM base texts (all '0', all 'F', all '9'): digit-run shortcuts
+        for (ui, x) in [0x00u8, 0xff, 0x99].into_iter().enumerate() {
+            let img = vec![x; v.size()];
+            if STRICT && v.hash(&img).is_none() {
+                continue;
+            }
+            let base = hex_text_unchecked(v, &img, ui % 2 == 0);
+            let off = if ui % 2 == 0 { 2 } else { 0 };
+            let body0 = off + c2 + 4;
+            let mut ps: Vec<usize> = vec![off, off + c2, off + c2 + 2, body0, body0 + 1, body0 + 7, body0 + 8, body0 + 15, base.len() - 8, base.len() - 1];
+            if thorough {
+                ps = (0..base.len()).collect();
+            }
+            ps.sort();
+            ps.dedup();
+            for pos in ps {
+                if pos < base.len() {
+                    emit_parse_sweep(out, v, "None", &base, pos);
+                }
+            }
+        }
         // (b') multi-byte UTF-8 characters at and across the field boundaries, BYTE length kept exact
         for with_prefix in [true, false] {
             let canon = hex_of(v, &image(v, rng), with_prefix);
